@@ -55,4 +55,5 @@ def main(tier):
     chk.run("R-CONSTPRESENT", B.constpresent, cx.repo, cx.templates, floor=1)
     chk.run("R-SWITCHFIT", B.switchfit, cx.repo, floor=1)
     chk.run("R-CHOICETYPE", B.choicetype, cx.repo, cx.cpp, floor=2)
+    chk.run("R-PARAMCOPY", B.paramcopy, cx.repo, cx.templates, floor=3)
     return chk.finish()
